@@ -296,7 +296,7 @@ func HarnessC10SliceChain() {
 
 // HarnessC10Maps: string-keyed maps, entries added, changed and removed.
 func HarnessC10Maps() {
-	keys := []string{"k0", "k1", "k2"}
+	keys := []string{"k0", "k1", "k2", "k3"}
 	mk := func() vCfg {
 		c := vCfg{ID: "n"}
 		for i := 0; i < vParam("elems", 2); i++ {
